@@ -81,6 +81,16 @@ class CdfInterp(object):
     raise KeyError(d)
 
   def test(self, t):
+    if isinstance(t, ast.UnaryOp) and isinstance(t.op, ast.Not):
+      v = self.test(t.operand)
+      return None if v is None else (not v)
+    if isinstance(t, ast.BoolOp):
+      vs = [self.test(v) for v in t.values]
+      if isinstance(t.op, ast.And):
+        return False if any(v is False for v in vs) else (
+            None if any(v is None for v in vs) else True)
+      return True if any(v is True for v in vs) else (
+          None if any(v is None for v in vs) else False)
     d = dotted(t)
     if d is not None and d in self.cfg and isinstance(self.cfg[d], bool):
       return self.cfg[d]
